@@ -1,6 +1,8 @@
 //! svh: the implementation side of every correspondence check.  Always built against /repo.
 mod c04;
+mod c05;
 mod common;
+mod tree;
 
 fn main() {
     let args: Vec<String> = std::env::args().collect();
@@ -10,6 +12,7 @@ fn main() {
     }
     match args[1].as_str() {
         "c04" => c04::main(&args[2..]),
+        "c05" => c05::main(&args[2..]),
         other => {
             eprintln!("svh: unknown subcommand {}", other);
             std::process::exit(2);
